@@ -1,15 +1,458 @@
 /-
-  Property C02 — proximal operators return the minimiser.  ONLY property theorems here.
+  Property C02 — proximal operators return the minimiser of `lam·f(x) + ½‖x - v‖²`.
+  ONLY property theorems (and their non-vacuity examples) here; lemmas are in `Scico/Proofs/Prox*.lean`.
+
+  Reading guide.
+  * SPEC side (`Scico.ProxSpec`, written independently of the model):
+      `Cert D f lam v p`   : `p ∈ D ∧ ∀ z ∈ D, f p + ⟪(v-p)/lam, z-p⟫ ≤ f z`     (sub-gradient certificate)
+      `IsProx D f lam v p` : `p ∈ D` minimises `lam f + ½‖·-v‖²` over `D` with gap `½‖x-p‖²` (⇒ unique)
+      `IsGMin D f lam v p` : `p ∈ D` is a global minimiser                         (non-convex `f`)
+    `D` is the domain of `f` (`Set.univ` for finite functionals, the constraint set for indicators).
+  * MODEL side (`Scico.Prox`, the code as written, instantiated at `ℝ`): `l1Prox`, `l2Prox`, …
+  * `toE v` views a model vector as a point of `EuclideanSpace ℝ (Fin n)`; `toCn` a vector of pairs as
+    a point of `ℂⁿ` with the real inner product `Re⟨·,·⟩`.  Block arrays and N-d arrays are their
+    flattening (the Euclidean structure is the same); groups are given by a labelling.
+  Every convex theorem yields, through `C02_prox_of_cert`, `C02_prox_unique`, `C02_prox_firm`,
+  `C02_prox_nonexpansive`, `C02_prox_mem_dom`: unique minimiser, firm non-expansiveness, membership in the domain.
 -/
-import Scico.Proofs.ProxPi
+import Scico.Proofs.ProxGroup
+import Scico.Proofs.ProxSep
+import Scico.Proofs.ProxNonconvex
+import Scico.Proofs.ProxL1L2
+
+set_option linter.unusedSectionVars false
 
 namespace Scico.Props.C02
-open Scico.ProxSpec
 
+open Scico Scico.Prox Scico.ProxSpec Scico.ProxBridge Scico.ProxConvex Scico.ProxGroup Scico.ProxSep
+  Scico.ProxNonconvex Scico.ProxL1L2 WithLp
+
+/-! ## generic theorems (any real inner-product space: ℝⁿ, ℂⁿ with `Re⟨·,·⟩`, block arrays) -/
+
+section Generic
 variable {E : Type*} [NormedAddCommGroup E] [InnerProductSpace ℝ E]
 
-/-- certificate ⇒ minimiser with quadratic gap -/
+/-- certificate ⇒ minimiser, with the quadratic gap `½‖x-p‖²` -/
 theorem C02_prox_of_cert {D : Set E} {f : E → ℝ} {lam : ℝ} {v p : E} (hlam : 0 < lam)
     (h : Cert D f lam v p) : IsProx D f lam v p := prox_of_cert hlam h
+
+/-- the minimiser is unique: every global minimiser equals the certified point -/
+theorem C02_prox_unique {D : Set E} {f : E → ℝ} {lam : ℝ} {v p q : E} (hlam : 0 < lam)
+    (hp : Cert D f lam v p) (hq : IsGMin D f lam v q) : q = p :=
+  (prox_of_cert hlam hp).unique hq
+
+/-- firm non-expansiveness of certified points -/
+theorem C02_prox_firm {D : Set E} {f : E → ℝ} {lam : ℝ} {v w p q : E} (hlam : 0 < lam)
+    (hp : Cert D f lam v p) (hq : Cert D f lam w q) : ‖p - q‖ ^ 2 ≤ inner ℝ (p - q) (v - w) :=
+  prox_firm hlam hp hq
+
+/-- hence 1-Lipschitz -/
+theorem C02_prox_nonexpansive {D : Set E} {f : E → ℝ} {lam : ℝ} {v w p q : E} (hlam : 0 < lam)
+    (hp : Cert D f lam v p) (hq : Cert D f lam w q) : ‖p - q‖ ≤ ‖v - w‖ :=
+  prox_nonexpansive hlam hp hq
+
+/-- a certified point lies in the domain of `f` -/
+theorem C02_prox_mem_dom {D : Set E} {f : E → ℝ} {lam : ℝ} {v p : E} (h : Cert D f lam v p) : p ∈ D := h.1
+
+/-- converse for convex `f` on a convex domain: a global minimiser carries the certificate
+    (so for convex `f` "minimiser" and "certificate" are the same thing) -/
+theorem C02_cert_of_min_convex {D : Set E} {f : E → ℝ} {lam : ℝ} {v p : E} (hlam : 0 < lam)
+    (hconv : ∀ x ∈ D, ∀ y ∈ D, ∀ t : ℝ, 0 ≤ t → t ≤ 1 →
+      (x + t • (y - x)) ∈ D ∧ f (x + t • (y - x)) ≤ (1 - t) * f x + t * f y)
+    (h : IsGMin D f lam v p) : Cert D f lam v p := cert_of_min_convex hlam hconv h
+
+/-- separable sums on product spaces (block arrays, coordinate-wise functionals): component
+    certificates assemble to the certificate of the sum -/
+theorem C02_separable {ι : Type*} [Fintype ι] {F : ι → Type*} [∀ i, NormedAddCommGroup (F i)]
+    [∀ i, InnerProductSpace ℝ (F i)] {D : ∀ i, Set (F i)} {φ : ∀ i, F i → ℝ} {lam : ℝ} {v p : PiLp 2 F}
+    (h : ∀ i, Cert (D i) (φ i) lam (v i) (p i)) :
+    Cert {x : PiLp 2 F | ∀ i, x i ∈ D i} (fun x => ∑ i, φ i (x i)) lam v p := cert_pi h
+
+/-- L2 norm in ANY real inner-product space (ℂⁿ, block arrays): `max(1 - lam/‖v‖, 0)·v`, and `0` at `v = 0` -/
+theorem C02_l2_general {lam : ℝ} (hlam : 0 < lam) (v : E) :
+    Cert Set.univ (fun x : E => ‖x‖) lam v ((if ‖v‖ = 0 then 0 else max (1 - lam / ‖v‖) 0) • v) :=
+  cert_norm hlam v
+
+/-- squared L2 norm in any real inner-product space -/
+theorem C02_sqL2_general {lam : ℝ} (hlam : 0 < lam) (v : E) :
+    Cert Set.univ (fun x : E => ‖x‖ ^ 2) lam v ((1 / (1 + 2 * lam)) • v) := cert_sqnorm hlam v
+
+/-- non-separable Huber norm in any real inner-product space -/
+theorem C02_huber_nonsep_general {lam delta : ℝ} (hlam : 0 < lam) (hd : 0 < delta) (v : E) :
+    Cert Set.univ (fun x : E => huberFn delta ‖x‖) lam v
+      ((1 - delta * lam / max ‖v‖ (delta * (1 + lam))) • v) := cert_huber hlam hd v
+
+/-- L2-ball indicator in any real inner-product space: `v·(r / max(‖v‖, r))` is the projection
+    (inside: `v`; on the sphere: `v`; outside: `r v/‖v‖`; `v = 0`: `0`) -/
+theorem C02_l2ball_general {lam rad : ℝ} (hlam : 0 < lam) (hr : 0 < rad) (v : E) :
+    Cert {x : E | ‖x‖ ≤ rad} (fun _ => 0) lam v ((rad / max ‖v‖ rad) • v) := cert_ball hlam hr v
+
+/-- distance to a closed convex set given its projector `P` (obtuse-angle property) -/
+theorem C02_setdist_general {C : Set E} {P : E → E} (hP : ∀ x, IsProjAt C x (P x)) {lam : ℝ} (hlam : 0 < lam)
+    (v : E) :
+    Cert Set.univ (fun x => ‖x - P x‖) lam v
+      ((if ‖v - P v‖ < lam then 1 else lam / ‖v - P v‖) • P v +
+        (1 - (if ‖v - P v‖ < lam then 1 else lam / ‖v - P v‖)) • v) :=
+  cert_setdist hP hlam v _ rfl
+
+/-- half squared distance to a closed convex set given its projector -/
+theorem C02_sqsetdist_general {C : Set E} {P : E → E} (hP : ∀ x, IsProjAt C x (P x)) {lam : ℝ} (hlam : 0 < lam)
+    (v : E) :
+    Cert Set.univ (fun x => 1 / 2 * ‖x - P x‖ ^ 2) lam v
+      ((1 / (1 + lam)) • v + (lam * (1 / (1 + lam))) • P v) := cert_sqsetdist hP hlam v
+
+/-- a metric projection is the prox of the indicator of its set -/
+theorem C02_indicator_general {C : Set E} {lam : ℝ} {v y : E} (hlam : 0 < lam) (h : IsProjAt C v y) :
+    Cert C (fun _ => 0) lam v y := cert_indicator hlam h
+
+end Generic
+
+/-! ## the MODEL prox maps on `ℝⁿ` (`n` arbitrary) -/
+
+section Real
+variable {n : Nat}
+
+/-- `ZeroFunctional.prox` -/
+theorem C02_zero {lam : ℝ} (v : Fin n → ℝ) :
+    Cert Set.univ (fun _ : EuclideanSpace ℝ (Fin n) => (0 : ℝ)) lam (toE v) (toE (zeroProx v)) := cert_zero _
+
+/-- `L1Norm.prox`, real input -/
+theorem C02_l1 {lam : ℝ} (hlam : 0 < lam) (v : Fin n → ℝ) :
+    Cert Set.univ (fun x : EuclideanSpace ℝ (Fin n) => ∑ i, |x i|) lam (toE v) (toE (l1Prox v lam)) := by
+  have := cert_pi (F := fun _ : Fin n => ℝ) (v := toE v) (p := toE (l1Prox v lam))
+    (fun i => cert_abs_real hlam (v i))
+  exact this.congr_dom setOf_forall_univ
+
+/-- `SquaredL2Norm.prox` -/
+theorem C02_sqL2 {lam : ℝ} (hlam : 0 < lam) (v : Fin n → ℝ) :
+    Cert Set.univ (fun x : EuclideanSpace ℝ (Fin n) => ‖x‖ ^ 2) lam (toE v) (toE (sqL2Prox v lam)) := by
+  rw [sqL2Prox_eq]; exact cert_sqnorm hlam _
+
+/-- `L2Norm.prox` as coded (`norm_v == 0` test, `max(1 - lam/‖v‖, 0)`), including `v = 0` and `‖v‖ ≤ lam` -/
+theorem C02_l2 {lam : ℝ} (hlam : 0 < lam) (v : Fin n → ℝ) :
+    Cert Set.univ (fun x : EuclideanSpace ℝ (Fin n) => ‖x‖) lam (toE v) (toE (l2Prox v lam)) := by
+  rw [l2Prox_eq]; exact cert_norm hlam _
+
+/-- `L21Norm.prox` over an ARBITRARY grouping of the entries (any axis, any block structure) -/
+theorem C02_l21 {lam : ℝ} (hlam : 0 < lam) (grp : Fin n → ℕ) (v : Fin n → ℝ) :
+    Cert Set.univ (l21Fn grp) lam (toE v) (toE (l21Prox grp v lam)) := cert_l21 grp v hlam
+
+/-- `HuberNorm` separable form, real input (`|v_i|` exactly at the threshold included) -/
+theorem C02_huber_sep {lam delta : ℝ} (hlam : 0 < lam) (hd : 0 < delta) (v : Fin n → ℝ) :
+    Cert Set.univ (fun x : EuclideanSpace ℝ (Fin n) => ∑ i, huberFn delta |x i|) lam (toE v)
+      (toE (huberSepProx delta v lam)) := by
+  have := cert_pi (F := fun _ : Fin n => ℝ) (v := toE v) (p := toE (huberSepProx delta v lam))
+    (fun i => by
+      have h := cert_huber hlam hd (v i)
+      rw [← huberSepProx1_eq] at h
+      exact h)
+  exact this.congr_dom setOf_forall_univ
+
+/-- `HuberNorm` non-separable form -/
+theorem C02_huber_nonsep {lam delta : ℝ} (hlam : 0 < lam) (hd : 0 < delta) (v : Fin n → ℝ) :
+    Cert Set.univ (fun x : EuclideanSpace ℝ (Fin n) => huberFn delta ‖x‖) lam (toE v)
+      (toE (huberNonsepProx delta v lam)) := by
+  rw [huberNonsepProx_eq]; exact cert_huber hlam hd _
+
+/-- `NonNegativeIndicator.prox` -/
+theorem C02_nonneg {lam : ℝ} (hlam : 0 < lam) (v : Fin n → ℝ) :
+    Cert {x : EuclideanSpace ℝ (Fin n) | ∀ i, 0 ≤ x i} (fun _ => 0) lam (toE v) (toE (nonnegProx v)) := by
+  have := cert_sep (D := fun _ : Fin n => Set.Ici (0 : ℝ)) (φ := fun _ _ => (0 : ℝ)) (lam := lam) (v := v)
+    (p := nonnegProx v) (fun i => nonneg_1d hlam (v i))
+  refine ⟨this.1, fun z hz => ?_⟩
+  have := this.2 z hz
+  simpa using this
+
+/-- `L2BallIndicator.prox` (code after fix b3feb73): inside / on / outside the ball and `v = 0` -/
+theorem C02_l2ball {lam rad : ℝ} (hlam : 0 < lam) (hr : 0 < rad) (v : Fin n → ℝ) :
+    Cert {x : EuclideanSpace ℝ (Fin n) | ‖x‖ ≤ rad} (fun _ => 0) lam (toE v) (toE (l2ballProx rad v)) := by
+  rw [l2ballProx_eq]; exact cert_ball hlam hr _
+
+/-- `SetDistance.prox` given a projector with the obtuse-angle property -/
+theorem C02_setdist {C : Set (EuclideanSpace ℝ (Fin n))} {P : (Fin n → ℝ) → (Fin n → ℝ)}
+    (hP : ∀ x, IsProjAt C (toE x) (toE (P x))) {lam : ℝ} (hlam : 0 < lam) (v : Fin n → ℝ) :
+    Cert Set.univ (fun x : EuclideanSpace ℝ (Fin n) => ‖x - toE (P (fun i => x i))‖) lam (toE v)
+      (toE (setDistProx v (P v) lam)) := by
+  rw [setDistProx_eq]
+  exact cert_setdist (P := fun x => toE (P (fun i => x i))) (fun x => hP _) hlam (toE v) _ rfl
+
+/-- `SquaredSetDistance.prox` given a projector with the obtuse-angle property -/
+theorem C02_sqsetdist {C : Set (EuclideanSpace ℝ (Fin n))} {P : (Fin n → ℝ) → (Fin n → ℝ)}
+    (hP : ∀ x, IsProjAt C (toE x) (toE (P x))) {lam : ℝ} (hlam : 0 < lam) (v : Fin n → ℝ) :
+    Cert Set.univ (fun x : EuclideanSpace ℝ (Fin n) => 1 / 2 * ‖x - toE (P (fun i => x i))‖ ^ 2) lam (toE v)
+      (toE (sqSetDistProx v (P v) lam)) := by
+  rw [sqSetDistProx_eq]
+  exact cert_sqsetdist (P := fun x => toE (P (fun i => x i))) (fun x => hP _) hlam (toE v)
+
+/-- `SquaredL2Loss.prox` with diagonal `A` (identity: `a = 1`) and weights `w ≥ 0` (zeros allowed) -/
+theorem C02_sqL2loss_diag {lam scale : ℝ} (hlam : 0 < lam) (hs : 0 ≤ scale) (w a y v : Fin n → ℝ)
+    (hw : ∀ i, 0 ≤ w i) :
+    Cert Set.univ (fun x : EuclideanSpace ℝ (Fin n) => ∑ i, scale * (w i * (y i - a i * x i) ^ 2)) lam (toE v)
+      (toE (sqL2LossDiagProx scale w a y v lam)) := by
+  have := cert_sep (D := fun _ : Fin n => Set.univ) (φ := fun i x => scale * (w i * (y i - a i * x) ^ 2))
+    (lam := lam) (v := v) (p := sqL2LossDiagProx scale w a y v lam)
+    (fun i => ⟨trivial, fun z _ => sqL2loss_1d hlam hs (hw i) (a i) (y i) (v i) z⟩)
+  exact this.congr_dom setOf_forall_univ
+
+/-- `NuclearNorm.prox` on the vector of singular values (`s ≥ 0`): `maximum(0, s - lam)` is the prox of the l1 norm -/
+theorem C02_nuclear_sv {lam : ℝ} (hlam : 0 < lam) (s : Fin n → ℝ) (hs : ∀ i, 0 ≤ s i) :
+    Cert Set.univ (fun x : EuclideanSpace ℝ (Fin n) => ∑ i, |x i|) lam (toE s) (toE (nuclearSvProx s lam)) := by
+  have : nuclearSvProx s lam = l1Prox s lam := by
+    funext i; exact nuclearSv_eq_l1 hlam (s i) (hs i)
+  rw [this]; exact C02_l1 hlam s
+
+end Real
+
+/-! ## complex input: `ℂⁿ` as a real inner-product space -/
+
+section Complex
+variable {n : Nat}
+
+/-- `L1Norm.prox`, complex input (modulus shrinkage along the phase `v/|v|`) -/
+theorem C02_l1_complex {lam : ℝ} (hlam : 0 < lam) (v : Fin n → ℝ × ℝ) :
+    Cert Set.univ (fun x : PiLp 2 (fun _ : Fin n => ℂ) => ∑ i, ‖x i‖) lam (toCn v) (toCn (l1ProxC v lam)) := by
+  have := cert_pi (F := fun _ : Fin n => ℂ) (v := toCn v) (p := toCn (l1ProxC v lam))
+    (fun i => by
+      have h := cert_norm hlam (toC (v i))
+      rw [← l1ProxC1_eq (v i) hlam] at h
+      exact h)
+  exact this.congr_dom setOf_forall_univC
+
+/-- `HuberNorm` separable form, complex input -/
+theorem C02_huber_sep_complex {lam delta : ℝ} (hlam : 0 < lam) (hd : 0 < delta) (v : Fin n → ℝ × ℝ) :
+    Cert Set.univ (fun x : PiLp 2 (fun _ : Fin n => ℂ) => ∑ i, huberFn delta ‖x i‖) lam (toCn v)
+      (toCn (huberSepProxC delta v lam)) := by
+  have := cert_pi (F := fun _ : Fin n => ℂ) (v := toCn v) (p := toCn (huberSepProxC delta v lam))
+    (fun i => by
+      have h := cert_huber hlam hd (toC (v i))
+      rw [← huberSepProxC1_eq] at h
+      exact h)
+  exact this.congr_dom setOf_forall_univC
+
+/-- `SquaredL2Loss.prox` with complex diagonal `A`, complex data, weights `w ≥ 0` -/
+theorem C02_sqL2loss_diag_complex {lam scale : ℝ} (hlam : 0 < lam) (hs : 0 ≤ scale) (w : Fin n → ℝ)
+    (a y v : Fin n → ℝ × ℝ) (hw : ∀ i, 0 ≤ w i) :
+    Cert Set.univ (fun x : PiLp 2 (fun _ : Fin n => ℂ) => ∑ i, scale * (w i * ‖toC (y i) - toC (a i) * x i‖ ^ 2))
+      lam (toCn v) (toCn (sqL2LossDiagProxC scale w a y v lam)) := by
+  have := cert_pi (F := fun _ : Fin n => ℂ) (v := toCn v) (p := toCn (sqL2LossDiagProxC scale w a y v lam))
+    (fun i => sqL2loss_1d_complex hlam hs (hw i) (a i) (y i) (v i))
+  exact this.congr_dom setOf_forall_univC
+
+end Complex
+
+/-! ## non-convex functionals: global minimisers by direct argument -/
+
+section Nonconvex
+variable {n : Nat}
+
+/-- SPEC: number of non-zero entries -/
+noncomputable def l0Fn (x : EuclideanSpace ℝ (Fin n)) : ℝ := ∑ i, l0Fn1 (x i)
+
+/-- **`L0Norm.prox` (threshold `|v_i| ≥ lam`, as coded and documented) — exact characterisation:**
+    its output is a global minimiser of `lam‖x‖₀ + ½‖x-v‖²` IFF every entry satisfies
+    `(lam ≤ |v_i| → 2 lam ≤ v_i²) ∧ (|v_i| < lam → v_i² ≤ 2 lam)`;  in particular for every `v`
+    when `lam = 2`, and for no `v` having an entry with `lam ≤ |v_i| < √(2 lam)`. -/
+theorem C02_l0_partial {lam : ℝ} (hlam : 0 < lam) (v : Fin n → ℝ) :
+    IsGMin Set.univ l0Fn lam (toE v) (toE (l0Prox v lam)) ↔ ∀ i, L0Cond |v i| lam := by
+  have hmodel : ∀ i, l0Prox1 (v i) lam = if ‖v i‖ < lam then 0 else v i := fun i => rfl
+  constructor
+  · intro h i
+    have h' : IsGMin {x : EuclideanSpace ℝ (Fin n) | ∀ i, x i ∈ (Set.univ : Set ℝ)}
+        (fun x => ∑ i, l0Fn1 (x i)) lam (toE v) (toE (l0Prox v lam)) := h.congr_dom setOf_forall_univ.symm
+    have := min_pi_coord (F := fun _ : Fin n => ℝ) h' i
+    have h2 : IsGMin Set.univ (l0Fn1 (E := ℝ)) lam (v i) (if ‖v i‖ < lam then 0 else v i) := this
+    exact (l0_min_iff hlam (v i)).mp h2
+  · intro h
+    have := min_pi (F := fun _ : Fin n => ℝ) (v := toE v) (p := toE (l0Prox v lam))
+      (D := fun _ => Set.univ) (φ := fun _ => l0Fn1 (E := ℝ))
+      (fun i => by
+        have := (l0_min_iff hlam (v i)).mpr (h i)
+        exact this)
+    exact this.congr_dom setOf_forall_univ
+
+/-- **negation with a witness**: `v = 1.2`, `lam = 1` — the code returns `1.2` (objective `1`),
+    `x = 0` has objective `0.72`. -/
+theorem C02_l0_not_min :
+    ¬ IsGMin Set.univ l0Fn (1 : ℝ) (toE (fun _ : Fin 1 => (6 / 5 : ℝ))) (toE (l0Prox (fun _ : Fin 1 => (6 / 5 : ℝ)) 1)) := by
+  rw [C02_l0_partial one_pos]
+  intro h
+  have := (h 0).1 (by rw [abs_of_pos] <;> norm_num)
+  rw [abs_of_pos (by norm_num)] at this
+  norm_num at this
+
+/-- what the minimiser is: the hard threshold at `v_i² ≥ 2 lam` is optimal for every `v`, `lam > 0` -/
+theorem C02_l0_spec {lam : ℝ} (hlam : 0 < lam) (v : Fin n → ℝ) :
+    IsGMin Set.univ l0Fn lam (toE v) (toE (fun i => if (v i) ^ 2 < 2 * lam then 0 else v i)) := by
+  have := min_pi (F := fun _ : Fin n => ℝ) (v := toE v)
+    (p := toE (fun i => if (v i) ^ 2 < 2 * lam then 0 else v i))
+    (D := fun _ => Set.univ) (φ := fun _ => l0Fn1 (E := ℝ))
+    (fun i => by
+      have := l0_spec_min hlam (v i)
+      simpa [Real.norm_eq_abs, sq_abs] using this)
+  exact this.congr_dom setOf_forall_univ
+
+/-- `L0Norm.prox`, complex input: same characterisation with the modulus -/
+theorem C02_l0_complex_partial {lam : ℝ} (hlam : 0 < lam) (v : Fin n → ℝ × ℝ)
+    (h : ∀ i, L0Cond ‖toC (v i)‖ lam) :
+    IsGMin Set.univ (fun x : PiLp 2 (fun _ : Fin n => ℂ) => ∑ i, l0Fn1 (x i)) lam (toCn v) (toCn (l0ProxC v lam)) := by
+  have := min_pi (F := fun _ : Fin n => ℂ) (v := toCn v) (p := toCn (l0ProxC v lam))
+    (D := fun _ => Set.univ) (φ := fun _ => l0Fn1 (E := ℂ))
+    (fun i => by
+      have h1 := (l0_min_iff hlam (toC (v i))).mpr (h i)
+      have e : toCn (l0ProxC v lam) i = if ‖toC (v i)‖ < lam then 0 else toC (v i) := by
+        show toC (l0ProxC1 (v i) lam) = _
+        unfold l0ProxC1; rw [cabs_eq]; split_ifs <;> rfl
+      rw [e]; exact h1)
+  exact this.congr_dom setOf_forall_univC
+
+/-- `SquaredL2AbsLoss.prox`, real input: global minimiser of `Σ scale·w_i (y_i - |x_i|)²` (`y ≥ 0`, `w ≥ 0`, zeros allowed) -/
+theorem C02_sqL2Abs {lam scale : ℝ} (hlam : 0 < lam) (hs : 0 ≤ scale) (w y v : Fin n → ℝ)
+    (hw : ∀ i, 0 ≤ w i) (hy : ∀ i, 0 ≤ y i) :
+    IsGMin Set.univ (fun x : EuclideanSpace ℝ (Fin n) => ∑ i, scale * w i * (y i - |x i|) ^ 2) lam (toE v)
+      (toE (sqL2AbsProx scale w y v lam)) := by
+  have := min_pi (F := fun _ : Fin n => ℝ) (v := toE v) (p := toE (sqL2AbsProx scale w y v lam))
+    (D := fun _ => Set.univ) (φ := fun i x => scale * w i * (y i - ‖x‖) ^ 2)
+    (fun i => by
+      have h := min_sqL2Abs hlam (mul_nonneg hs (hw i)) (hy i) (v i) (1 : ℝ) (by simp)
+      have e : toE (sqL2AbsProx scale w y v lam) i =
+          if 0 < ‖v i‖ then ((2 * lam * (scale * w i) * y i + ‖v i‖) / (2 * lam * (scale * w i) + 1) / ‖v i‖) • v i
+          else ((2 * lam * (scale * w i) * y i + ‖v i‖) / (2 * lam * (scale * w i) + 1)) • (1 : ℝ) := by
+        show sqL2AbsProx1 scale (w i) (y i) (v i) lam = _
+        unfold sqL2AbsProx1
+        simp only [hasAbs_abs, Real.norm_eq_abs, smul_eq_mul, mul_one]
+        have e1 : lam * 2 * scale * w i = 2 * lam * (scale * w i) := by ring
+        rw [e1]
+      rw [e]; exact h)
+  exact this.congr_dom setOf_forall_univ
+
+/-- `SquaredL2AbsLoss.prox`, complex input -/
+theorem C02_sqL2Abs_complex {lam scale : ℝ} (hlam : 0 < lam) (hs : 0 ≤ scale) (w y : Fin n → ℝ)
+    (v : Fin n → ℝ × ℝ) (hw : ∀ i, 0 ≤ w i) (hy : ∀ i, 0 ≤ y i) :
+    IsGMin Set.univ (fun x : PiLp 2 (fun _ : Fin n => ℂ) => ∑ i, scale * w i * (y i - ‖x i‖) ^ 2) lam (toCn v)
+      (toCn (sqL2AbsProxC scale w y v lam)) := by
+  have := min_pi (F := fun _ : Fin n => ℂ) (v := toCn v) (p := toCn (sqL2AbsProxC scale w y v lam))
+    (D := fun _ => Set.univ) (φ := fun i x => scale * w i * (y i - ‖x‖) ^ 2)
+    (fun i => by
+      have h := min_sqL2Abs hlam (mul_nonneg hs (hw i)) (hy i) (toC (v i)) (1 : ℂ) (by simp)
+      have e : toCn (sqL2AbsProxC scale w y v lam) i =
+          if 0 < ‖toC (v i)‖ then
+            ((2 * lam * (scale * w i) * y i + ‖toC (v i)‖) / (2 * lam * (scale * w i) + 1) / ‖toC (v i)‖) • toC (v i)
+          else ((2 * lam * (scale * w i) * y i + ‖toC (v i)‖) / (2 * lam * (scale * w i) + 1)) • (1 : ℂ) := by
+        show toC (sqL2AbsProxC1 scale (w i) (y i) (v i) lam) = _
+        unfold sqL2AbsProxC1
+        simp only [cabs_eq]
+        have e1 : lam * 2 * scale * w i = 2 * lam * (scale * w i) := by ring
+        rw [e1]
+        split_ifs
+        · rw [toC_cscale]
+        · apply Complex.ext <;>
+            simp only [toC_re, toC_im, Complex.smul_re, Complex.smul_im, Complex.one_re, Complex.one_im, smul_eq_mul] <;> ring
+      rw [e]; exact h)
+  exact this.congr_dom setOf_forall_univC
+
+/-- the hypothesis on the value `r` returned by `_dep_cubic_root(p, q)` for one entry
+    (`alpha = 4·lam·scale·w`, `p = (1 - alpha y)/alpha`, `q = -|v|/alpha`):
+    it is a non-negative root of `r³ + p r + q`, and it is `0` only if `alpha·y ≤ 1`. -/
+def CubicRootOK (lam scale w y absv r : ℝ) : Prop :=
+  0 < lam * 4 * scale * w →
+    0 ≤ r ∧ r ^ 3 + depCubicP scale w y lam * r + depCubicQ scale w absv lam = 0 ∧
+      (r = 0 → lam * 4 * scale * w * y ≤ 1)
+
+/-- `SquaredL2SquaredAbsLoss.prox`, real input, GIVEN the root relation (the cubic solver is a contract):
+    global minimiser of `Σ scale·w_i (y_i - |x_i|²)²`, weights `w ≥ 0` (zeros allowed) -/
+theorem C02_sqL2SqAbs {lam scale : ℝ} (hlam : 0 < lam) (hs : 0 ≤ scale) (w y v r : Fin n → ℝ)
+    (hw : ∀ i, 0 ≤ w i) (hroot : ∀ i, CubicRootOK lam scale (w i) (y i) |v i| (r i)) :
+    IsGMin Set.univ (fun x : EuclideanSpace ℝ (Fin n) => ∑ i, scale * w i * (y i - |x i| ^ 2) ^ 2) lam (toE v)
+      (toE (sqL2SqAbsProx scale w v lam r)) := by
+  have := min_pi (F := fun _ : Fin n => ℝ) (v := toE v) (p := toE (sqL2SqAbsProx scale w v lam r))
+    (D := fun _ => Set.univ) (φ := fun i x => scale * w i * (y i - ‖x‖ ^ 2) ^ 2)
+    (fun i => by
+      show IsGMin Set.univ _ lam (v i) (sqL2SqAbsProx1 scale (w i) (v i) lam (r i))
+      unfold sqL2SqAbsProx1
+      simp only [hasAbs_abs]
+      by_cases hα : 0 < lam * 4 * scale * w i
+      · rw [if_pos hα]
+        obtain ⟨hr0, hrt, hsel⟩ := hroot i hα
+        have e4 : 4 * lam * (scale * w i) = lam * 4 * scale * w i := by ring
+        have ha : 0 < scale * w i := by
+          by_contra hc
+          push Not at hc
+          nlinarith
+        have hrt' : 4 * lam * (scale * w i) * r i ^ 3 + (1 - 4 * lam * (scale * w i) * y i) * r i - ‖v i‖ = 0 := by
+          unfold depCubicP depCubicQ at hrt
+          simp only [noNanDiv_eq, if_neg hα.ne'] at hrt
+          rw [e4, Real.norm_eq_abs]
+          generalize lam * 4 * scale * w i = A at hα hrt ⊢
+          have h2 : A * (r i ^ 3 + (1 - A * y i) / A * r i + -|v i| / A) = A * r i ^ 3 + (1 - A * y i) * r i - |v i| := by
+            field_simp
+            ring
+          rw [← h2, hrt, mul_zero]
+        have h := min_sqL2SqAbs hlam ha (v i) (1 : ℝ) (by simp) hr0 hrt' (fun h0 => by rw [e4]; exact hsel h0)
+        have e : (r i * if 0 < |v i| then v i / |v i| else 1) =
+            if 0 < ‖v i‖ then r i • ((1 / ‖v i‖) • v i) else r i • (1 : ℝ) := by
+          rw [Real.norm_eq_abs]; split_ifs <;> simp [div_eq_inv_mul]
+        rw [e]; exact h
+      · rw [if_neg hα]
+        have h0 : scale * w i = 0 := by
+          have hnn : 0 ≤ lam * 4 * scale * w i := by have := hw i; positivity
+          have : lam * 4 * scale * w i = 0 := le_antisymm (not_lt.mp hα) hnn
+          have h4 : lam * 4 * (scale * w i) = 0 := by rw [← this]; ring
+          rcases mul_eq_zero.mp h4 with h | h
+          · exact absurd h (by positivity)
+          · exact h
+        simp only [h0]
+        exact min_zero_weight (v i) _)
+  exact this.congr_dom setOf_forall_univ
+
+/-- SPEC: `‖x‖₁ - beta‖x‖₂` -/
+noncomputable def l1l2Fn (beta : ℝ) (x : EuclideanSpace ℝ (Fin n)) : ℝ := ∑ i, |x i| - beta * ‖x‖
+
+/-- **`L1MinusL2Norm.prox`** (real input, every `beta ≥ 0`): the four-branch formula of the code is a
+    global minimiser of `lam(‖x‖₁ - beta‖x‖₂) + ½‖x-v‖²` for every `v ≠ 0`, and for `v = 0` when `beta ≤ 1`. -/
+theorem C02_l1l2_partial {lam beta : ℝ} (hlam : 0 < lam) (hb : 0 ≤ beta) (v : Fin n → ℝ)
+    (hreg : (∃ i, v i ≠ 0) ∨ beta ≤ 1) :
+    IsGMin Set.univ (l1l2Fn beta) lam (toE v) (toE (l1l2Prox beta v lam)) := l1l2_min hlam hb v hreg
+
+/-- **negation at the excluded corner**: `v = 0`, `beta = 2`, `lam = 1` — the code returns `0`
+    (objective `0`) while `x = e₁` has objective `-½`. -/
+theorem C02_l1l2_zero_not_min :
+    ¬ IsGMin Set.univ (l1l2Fn 2) (1 : ℝ) (toE (fun _ : Fin 1 => (0 : ℝ))) (toE (l1l2Prox 2 (fun _ : Fin 1 => (0 : ℝ)) 1)) :=
+  l1l2_zero_not_min
+
+end Nonconvex
+
+/-! ## non-vacuity: the hypotheses are satisfiable on concrete, non-trivial instances, and the
+    theorems say something about concrete numbers -/
+
+section Examples
+
+-- soft threshold of (3, -1/2): (2, 0) — and this point is THE minimiser
+example : l1Prox (fun i : Fin 2 => if i = 0 then (3 : ℝ) else -1 / 2) 1 0 = 2 := by
+  simp [l1Prox, l1Prox1, Prox.posPart, sign]; norm_num
+example : IsProx Set.univ (fun x : EuclideanSpace ℝ (Fin 2) => ∑ i, |x i|) 1
+    (toE (fun i : Fin 2 => if i = 0 then (3 : ℝ) else -1 / 2))
+    (toE (l1Prox (fun i : Fin 2 => if i = 0 then (3 : ℝ) else -1 / 2) 1)) :=
+  C02_prox_of_cert one_pos (C02_l1 one_pos _)
+-- the L0 condition holds for lam = 2 and every t (so C02_l0_partial is not vacuous) and fails at t = 6/5, lam = 1
+example (t : ℝ) (ht : 0 ≤ t) : L0Cond t 2 := ⟨fun h => by nlinarith, fun h => by nlinarith⟩
+example : ¬ L0Cond (6 / 5) 1 := fun h => by have := h.1 (by norm_num); norm_num at this
+-- a projector satisfying the obtuse-angle hypothesis: the non-negative orthant in ℝ (P x = max x 0)
+example (x : ℝ) : IsProjAt (Set.Ici (0 : ℝ)) x (max x 0) := by
+  refine ⟨Set.mem_Ici.mpr (le_max_right _ _), fun z hz => ?_⟩
+  have hz' : (0 : ℝ) ≤ z := hz
+  simp only [RCLike.inner_apply, conj_trivial]
+  rcases le_total x 0 with h | h
+  · rw [max_eq_right h]; nlinarith
+  · rw [max_eq_left h]; simp
+-- the root hypothesis of C02_sqL2SqAbs is satisfiable: lam = 1/4, scale = 1, w = 1 (alpha = 1), y = 0, |v| = 2, r = 1
+example : CubicRootOK (1 / 4) 1 1 0 2 1 := by
+  intro _
+  refine ⟨by norm_num, ?_, by norm_num⟩
+  simp [depCubicP, depCubicQ, noNanDiv_eq]; norm_num
+-- the regime hypothesis of C02_l1l2_partial: any non-zero v, or beta ≤ 1
+example : (∃ i : Fin 2, (fun i : Fin 2 => if i = 0 then (3 : ℝ) else 0) i ≠ 0) ∨ (2 : ℝ) ≤ 1 :=
+  Or.inl ⟨0, by simp⟩
+
+end Examples
 
 end Scico.Props.C02
